@@ -13,6 +13,23 @@ def main():
     keys = [e["key"] for e in known.load()["finding"] if e["property"] == prop]
     ctx = common.Ctx(prop, tier, int(seed), int(i), int(n), float(budget), keys)
     mod = importlib.import_module("vf.props." + prop.lower())
+    import signal
+
+    class Stalled(BaseException):
+        pass
+    last = [-1, 0]
+
+    def tick(*a):
+        # generic wall-clock watchdog: no judged case for 150 s => give up on this shard (inconclusive, never a verdict)
+        cur = ctx.evaluations + sum(ctx.counters.values())
+        if cur == last[0]:
+            last[1] += 1
+            if last[1] >= 5:
+                raise Stalled()
+        else:
+            last[0], last[1] = cur, 0
+    signal.signal(signal.SIGALRM, tick)
+    signal.setitimer(signal.ITIMER_REAL, 30, 30)
     try:
         common.import_repo()
         if ctx.i == 0:
@@ -27,6 +44,10 @@ def main():
         mod.shard(ctx)
     except common.Inconclusive as e:
         ctx.inconc(str(e))
+    except Stalled:
+        import traceback
+        ctx.inconc("shard %d made no progress for 150 s (wall-clock watchdog): %s" % (ctx.i, traceback.format_exc(limit=-4)[-400:]))
+    signal.setitimer(signal.ITIMER_REAL, 0)
     with open(out, "w") as f:
         json.dump(ctx.dump(), f)
 
